@@ -328,9 +328,25 @@ def r84(ctx):
                         okbody = True
             if okbody:
                 loops.append(n)
-    if not loops:
+    # the same gate as one test over all paths: `if not all(isfile(.../traj.txt) for act in current.active): return None`
+    gates = []
+    for t in [x for x in walk_local(f) if isinstance(x, ast.If)]:
+        tst = t.test
+        if not (isinstance(tst, ast.UnaryOp) and isinstance(tst.op, ast.Not) and isinstance(tst.operand, ast.Call) and last_name(tst.operand) == "all" and len(tst.operand.args) == 1):
+            continue
+        if not any(isinstance(s_, ast.Return) and (s_.value is None or (isinstance(s_.value, ast.Constant) and s_.value.value is None)) or isinstance(s_, ast.Raise) for s_ in t.body):
+            continue
+        comp = tst.operand.args[0]
+        if isinstance(comp, ast.Name):
+            comp, _ = deref(fl, comp, cfg.node_of(tst))
+        if isinstance(comp, (ast.ListComp, ast.GeneratorExp)) and len(comp.generators) == 1 and not comp.generators[0].ifs:
+            it = comp.generators[0].iter
+            if (_cfg_chain_(it, _env_) == ["current", "active"] or "['current']['active']" in ast.unparse(it).replace('"', "'")) and "isfile" in ast.unparse(comp.elt) and "traj.txt" in ast.unparse(comp.elt) and not any(isinstance(x, ast.UnaryOp) and isinstance(x.op, ast.Not) for x in ast.walk(comp.elt)):
+                gates.append(tst)
+    if not loops and not gates:
         ctx.bad(rid, f, "setup_config's restart branch does not test that <load_dir>/<path>/traj.txt exists for every active path: a restart with a missing path starts and fails later")
-    ln = [cfg.node_of(l) for l in loops]
+    ln = [cfg.node_of(l) for l in loops] + [cfg.node_of(g_) for g_ in gates]
+    loops = loops + gates
     for bt in bts if loops else []:
         for r in rets:
             if cfg.reaches(bt, cfg.node_of(r), avoid=ln):
